@@ -32,6 +32,11 @@ def body(run):
         raise vf.Inconclusive("only %d rows" % len(cases))
     if not q:
         cases = cases + [r for r in cases if r["kind"] != "admit"] * 5   # fresh seeded plaintexts / messages
+    import os
+    if os.environ.get("VERIF_CORRUPT"):
+        i = [k for k, r in enumerate(cases) if r["kind"] == "admit" and r["lk"] == 256 and r["rk"] == 256][0]
+        cases[i] = dict(cases[i], admit=not cases[i]["admit"])
+        run.log("VERIF_CORRUPT: expected admission of one case flipped; the replay must reject it")
     run.log("TLC: %d states; %d cases" % (run.cov["states"], len(cases)))
     results = run.go_run(exe[0], [], cases=table + cases, timeout=2400)
     if len(results) != len(cases):
